@@ -305,6 +305,10 @@ trait BoolExt: BooleanFunction + Clone + Eq + Ord + Hash + Send + 'static {
         None
     }
     fn fmt_term<'id>(t: &<Self::Manager<'id> as Manager>::Terminal) -> String;
+    /// a fresh manager of this kind (BIGORDER); `None` = not supported
+    fn new_mgr(_cap: usize, _cache: usize, _threads: u32) -> Option<Self::ManagerRef> {
+        None
+    }
 }
 
 macro_rules! impl_quant_ext {
@@ -333,12 +337,18 @@ macro_rules! impl_quant_ext {
 
 impl BoolExt for oxidd::bdd::BDDFunction {
     impl_quant_ext!(oxidd::bdd::BDDFunction);
+    fn new_mgr(cap: usize, cache: usize, threads: u32) -> Option<Self::ManagerRef> {
+        Some(oxidd::bdd::new_manager(cap, cache, threads))
+    }
     fn fmt_term<'id>(t: &<Self::Manager<'id> as Manager>::Terminal) -> String {
         format!("{t:?}")
     }
 }
 impl BoolExt for oxidd::bcdd::BCDDFunction {
     impl_quant_ext!(oxidd::bcdd::BCDDFunction);
+    fn new_mgr(cap: usize, cache: usize, threads: u32) -> Option<Self::ManagerRef> {
+        Some(oxidd::bcdd::new_manager(cap, cache, threads))
+    }
     fn fmt_term<'id>(_t: &<Self::Manager<'id> as Manager>::Terminal) -> String {
         "True".into()
     }
@@ -729,6 +739,45 @@ where
                 });
                 let (before, created, at_end, hit) = res?;
                 Ok(format!("before={before} created={created} inner_at_end={at_end} oom={}", hit as u8))
+            }
+            "BIGORDER" => {
+                // BIGORDER <pairs> <threads> <seed> <order...>: a manager of its own with the function
+                // OR_i (x_i AND x_{i+pairs}) (2^(pairs+1) nodes under the identity order), so that
+                // set_var_order takes the *concurrent* bubble sort (>= 2^16 nodes and > 1 worker);
+                // reports the resulting variable order and whether 64 sampled evaluations are unchanged
+                if cfg!(debug_assertions) {
+                    return Err("skip".into());
+                }
+                let pairs: u32 = tok[1].parse().unwrap();
+                let threads: u32 = tok[2].parse().unwrap();
+                let mut rng = Rng::new(tok[3].parse().unwrap());
+                let order: Vec<VarNo> = tok[4..].iter().map(|t| t.parse().unwrap()).collect();
+                let n = 2 * pairs;
+                let mref = F::new_mgr(1 << 22, 1 << 16, threads).ok_or("skip")?;
+                mref.with_manager_exclusive(|m| m.add_vars(n));
+                let f: F = mref.with_manager_shared(|m| {
+                    let mut acc = F::f(m);
+                    for i in 0..pairs {
+                        let t = oom(oom(F::var(m, i))?.and(&oom(F::var(m, i + pairs))?))?;
+                        acc = oom(acc.or(&t))?;
+                    }
+                    Ok::<F, String>(acc)
+                })?;
+                let nodes = f.node_count();
+                let samples: Vec<Vec<bool>> = (0..64).map(|_| (0..n).map(|_| rng.next() & 1 == 1).collect()).collect();
+                let ev = |f: &F| -> Vec<bool> {
+                    samples.iter().map(|a| f.eval(a.iter().enumerate().map(|(v, b)| (v as VarNo, *b)))).collect()
+                };
+                let before = ev(&f);
+                mref.with_manager_exclusive(|m| oxidd_reorder::set_var_order(m, &order));
+                let after = ev(&f);
+                let v2l: Vec<String> = mref.with_manager_shared(|m| (0..n).map(|v| m.var_to_level(v).to_string()).collect());
+                let nodes_after = f.node_count();
+                Ok(format!(
+                    "big nodes={nodes} nodes_after={nodes_after} evals_ok={} v2l {}",
+                    (before == after) as u8,
+                    v2l.join(" ")
+                ))
             }
             "DROPALL" => {
                 self.core.slots.clear();
